@@ -160,8 +160,9 @@ def _password(cx, thorough):
         cx.unknown(v if v is not None else m.tree.body[0], "DEFAULT_PASSWORD_REGEXS is not a literal list")
         return
     fn = m.func("Password.parse_line", "C08.R5")
-    subs = [x for x in walk_body(fn.body) if isinstance(x, ast.Call) and call_name(x) == "re.sub"]
-    tmpl = const_str(subs[0].args[1]) if subs and len(subs[0].args) > 1 else None
+    from .. import feat
+    subs = feat.sub_calls(fn.body)
+    tmpl = const_str(subs[0][2]) if subs else None
     if tmpl is None:
         cx.unknown(fn, "no literal replacement template")
         return
